@@ -63,9 +63,10 @@ CHECKS = {
         technique=E2 + " (here: every sequence of the six read-only queries of length 3/4 on every E1 terminal program), plus digest tables from child processes under different PYTHONHASHSEED",
         text="For every terminal program of a 34-symbol alphabet to depth 3/4 (a narrow alphabet one deeper, and a macro alphabet that "
         "builds repeated identical calls) and a corpus subset, every history of {unparse, check_safety, trace, summaries, dumps, reparse} of "
-        "length 3/4 and every pair of 11 fine-grained queries is replayed on a fresh parse and every answer compared with a fresh object's first answer; "
+        "length 3/4 and every pair of 12 fine-grained queries (incl. a caller's own Interpreter run) is replayed on a fresh parse and every answer compared with a fresh object's first answer; "
         "the same bytes parsed as the second member of a stacked file must give the same answers; the per-program answer digests are recomputed in 3 "
-        "processes with different hash seeds, two of which meet an ordered program list in the opposite order.",
+        "processes with different hash seeds, two of which answer an ordered program list (macro programs, equal-but-different constants) in the opposite "
+        "order as the first thing in their process.",
         ref="§3/C13",
         note="Trusted: finite set of hash seeds; findings compared as a set.",
     ),
@@ -74,7 +75,7 @@ CHECKS = {
         technique=E1 + "; terminal oracle: check_safety returns well-formed JSON-serialisable findings and the checked loader's error carries the same report; plus an exhaustive module x name x opcode x PROTO product",
         text="All decompilable programs over core + special-cased globals to depth 4/5, a statement-shape alphabet one deeper, the corpus and "
         "its deviation-1 variants, and the product 24 modules x 17 attribute names (every name a rule special-cases) x 2 resolving opcodes x "
-        "7 uses x 5 PROTO placements (~28k programs); the loader's error report is compared at three thresholds, each fed from a different kind of "
+        "7 uses x 5 PROTO placements (~28k programs), a second PROTO at every position up to 40; the loader's error report is compared at three thresholds, each fed from a different kind of "
         "stream (in memory, raw non-seekable, buffered non-seekable).",
         ref="§3/C19",
         note="Trusted: pickle.loads replaced by a recorder during fickling.load so nothing generated is really unpickled.",
@@ -84,7 +85,7 @@ CHECKS = {
         technique=E2 + "; model = (BASE, current additions); every history without state matching to depth 4/5, then with matching deeper",
         text="All histories over activate(A) for 6 addition sets / deactivate / probe (loads of every probe global, refused ones included) / "
         "construct-unpickler(A) up to depth 4 (quick, 41k histories) or 5, "
-        "each replayed on the real process; after every step 7 probe globals are loaded through pickle.load, pickle.loads and _pickle.loads and "
+        "each replayed on the real process from a reset that owns module-level and class-level data; after every step 7 probe globals are loaded through pickle.load, pickle.loads and _pickle.loads and "
         "through a private unpickler instance, and ML_ALLOWLIST (also as seen by the MLAllowlist analysis) is deep-compared with a pristine copy.",
         ref="§3/C11, §2/E2",
         note="Trusted: the two-variable model; probe globals chosen to include a new member of an allow-listed module and new modules.",
@@ -105,7 +106,7 @@ CHECKS = {
         level="model_checking",
         technique=E2 + "; state = (opcode encodings, cached AST digest, cached properties digest); oracle = every view equals that of a fresh Pickled(list(p))",
         text="All histories of 62 core operations (insert/delete/replace/slice-assign/append/extend/pop/reverse/+=/remove at first, last and "
-        "negative positions, the injection helpers, explicit reads of ast / properties / severity / dumps and a caller's own Interpreter run) to depth 3 (quick) / 4, and of "
+        "negative positions, the injection helpers, explicit reads of ast / properties / severity / dumps, a caller's own Interpreter run, helpers that raise half way) to depth 3 (quick) / 4, and of "
         "the full 90-operation menu (NoOp-class and constant-for-constant edits added) one level shallower, from 7/9 base pickles (one with a "
         "70000-byte opcode); every sequence operation is also applied to a plain list of the same opcode objects (reference model); after every step ast, import/call "
         "summaries, verdict and dumps() are compared with a freshly constructed Pickled over the same opcode list, dumps() with the "
@@ -149,7 +150,7 @@ CHECKS = {
     "C10": dict(
         level="model_checking",
         technique=E3 + ": all stacks of 1..3/4 pickles over 6 severity shapes x every face of the verdict; all 36 severity pairs x 6 operators",
-        text="1024 / 2700 files (stacks of 1..4/5 over 7 severity shapes) x {per-pickle library verdict, to_dict, is_likely_safe, checked loader at 6 thresholds, CLI --check-safety under "
+        text="1069 / 2750 files (stacks of 1..4/5 over 7 severity shapes, plus 3 multi-finding shapes alone and in pairs) x {per-pickle library verdict, to_dict, is_likely_safe, checked loader at 6 thresholds, CLI --check-safety under "
         "4 option sets from a path and 2 from a non-seekable stdin (exit status and decoded JSON report)} compared through an independent rank table; "
         "the same path rewritten and asked again, also with equal size and modification time; "
         "Severity comparison operators checked on all ordered pairs.",
@@ -196,7 +197,8 @@ CHECKS = {
         "_pickle.loads | pickle.loads on a BYTEARRAY8 payload) x (bare pickle | legacy torch container | zip torch container), 7 leaf globals (incl. INST-only, dotted protocol-4 "
         "names, unlisted member of a listed module, an import-only stdlib name the static analysis passes), through the 4 hooked entry points, "
         "bytearray / memoryview arguments, and pickle.load with fickling's static hook (global or context manager) layered on top, under 4 addition sets, "
-        "also after a re-activation (the earlier activation used once) without removal. Every pickle.find_class audit event during the protected load must be allowed; if the reference load reaches "
+        "also after a re-activation (the earlier activation used once) without removal. After every protected load a follow-up load of a non-listed global under the same activation must still be refused. "
+        "Every pickle.find_class audit event during the protected load must be allowed (the built-in allowlist is taken once, before any activation); if the reference load reaches "
         "a global outside the allowed set the protected load must raise UnsafeFileError and the sink must stay empty.",
         ref="§3/C07",
         note="Trusted: find_class audit events see every unpickler instance; payloads harmless and really loaded; torch 2.14 of this image.",
